@@ -12,11 +12,17 @@ def judge_case(case):
 
 def run(ctx):
     ctx.cov["rule"] = (
-        "pair lattice (incl. far-below texts needing several default-mode steps) x large x very_readable for modes 1 and 2, "
+        "pair lattice (incl. far-below texts needing several default-mode steps; thorough: plus every colour of a step-12 cube within ratio 1.08 "
+        "of four mid-tone backgrounds) x large x very_readable for modes 1 and 2, "
         "and x mode for the very_readable/ordinary comparison; relational oracle, no expected values. non-trivial = pairs "
         "where mode 1 succeeds after a change, mode 2 alone succeeds, or a very_readable request succeeds."
     )
-    pl, it = sweep.sweep(ctx)
+    # thorough tier: the whole neighbourhood of four mid-tone backgrounds as well (this property only: such pairs fail in every
+    # mode and cost seconds each)
+    from mc.lattice import near_background_shell
+
+    shell = [] if ctx.quick else [(t, b) for t, b, _tag in near_background_shell(ctx.phase)]
+    pl, it = sweep.sweep(ctx, shell)
     n = nt = 0
     t1 = t2 = tv = 0
     for rec in it:
